@@ -5,7 +5,7 @@ from __future__ import annotations
 
 from .term import AnalysisError, AbstractValue, Term, show
 from .poly import Poly, Rat
-from .interp import Interp, World, Instance, Raised
+from .interp import Interp, World, Instance, Raised, External
 from .ecalg import FieldSym, FieldSymClass, PolyCond, AlgState, alg_paths, AlgInterp
 from .tower import TowerSym
 
@@ -57,6 +57,16 @@ class FieldSubject:
             self.d = len(self.mc)
         self.summ = {UTILS_INV: inv_summary(self.p)}
         self.repo.func(UTILS_INV)
+        self.undecided = []
+
+    def settle(self, out):
+        """end of a batch of obligations: an undecided one is an analysis error unless a violation was found anyway"""
+        if self.undecided and all(o[1] for o in out):
+            msg = self.undecided[0]
+            self.undecided = []
+            raise AnalysisError(msg)
+        self.undecided = []
+        return out
 
     # ---- symbolic operands ------------------------------------------------
     def var(self, name, reduced=False):
@@ -112,6 +122,42 @@ class FieldSubject:
         if isinstance(a, TowerSym):
             return a.equals(b)
         return (a - b).is_zero()
+
+    def same_on(self, it, a, b):
+        """equal as polynomials, or equal under the algebraic facts of the current path"""
+        if self.same(a, b):
+            return True
+        alg = getattr(it, "alg", None)
+        if alg is None:
+            return False
+        diffs = [x - y for x, y in zip(a.c, b.c)] if isinstance(a, TowerSym) else [a - b]
+        return all(alg.is_zero(Rat(Poly(d.t, None))) is True for d in diffs)
+
+    def over_paths(self, body, label, where, out, refusal=None):
+        """evaluate body(it) -> (ok, detail) on every path of the walked code (the operands are built inside body, so a branch
+        in a constructor is a path split too); a raising path fails unless `refusal` accepts the exception class"""
+        paths = alg_paths(self.world, body, AlgState(), native_fields=False, summaries=self.summ, partial=True)
+        bad, notes = [], []
+        for p in paths:
+            pd = " ".join(p.branch_lines()[-3:])
+            if p.outcome == "raise":
+                cn = p.value.clsname()
+                if refusal is not None and refusal(cn):
+                    notes.append(f"raises {cn}")
+                    continue
+                bad.append(f"raises {cn} at {p.value.where}" + (f" on path {pd}" if pd else ""))
+            else:
+                ok, det = p.value
+                if not ok:
+                    bad.append(det + (f" on path {pd}" if pd else ""))
+                elif det:
+                    notes.append(det)
+        if paths.truncated and not bad:
+            # undecided: remembered, and raised by the caller unless another obligation of the same class fails outright
+            self.undecided.append(f"{where}: {label}: more than {len(paths) - 1} algebraic paths and no violation among those walked")
+            return
+        out.append((label, bool(paths) and not bad, "; ".join(bad[:2]) or "; ".join(sorted(set(notes))[:2]) or
+                    (f"{len(paths)} paths" if len(paths) > 1 else ""), where))
 
 
 def check_inv_paths(S: "FieldSubject"):
@@ -272,39 +318,46 @@ def run_fq(S: FieldSubject):
         if m is None:
             out.append((f"{meth}", False, "method missing", S.cls.module.relpath))
             continue
-        it = S.interp()
-        a, av = S.element(it, "a")
-        if kind == "elem":
-            b, bv = S.element(it, "b")
-        elif kind == "int":
-            b, bv = S.var("k"), Poly.var("k", S.p)
-        else:
-            b, bv = None, None
-        try:
+        def body(it, m=m, kind=kind, spec=spec):
+            a, av = S.element(it, "a")
+            if kind == "elem":
+                b, bv = S.element(it, "b")
+            elif kind == "int":
+                b, bv = S.var("k"), Poly.var("k", S.p)
+            else:
+                b, bv = None, None
             r = it.call_func(m, [a] + ([b] if kind else []), {})
             val, red, okcls = S.read(r)
-        except Raised as ex:
-            out.append((f"{meth}({kind})", False, f"raises {ex.exc.clsname()} at {ex.exc.where}", m.where))
-            continue
-        want = spec(av, bv)
-        ok = S.same(val, want) and red and okcls
-        out.append((f"{meth}({kind or 'unary'})", ok,
-                    "" if ok else f"result ≡ {val!r}, specification {want!r}; stored reduced: {red}; class preserved: {okcls}", m.where))
+            want = spec(av, bv)
+            ok = S.same_on(it, val, want) and red and okcls
+            return ok, "" if ok else f"result ≡ {val!r}, specification {want!r}; stored reduced: {red}; class preserved: {okcls}"
+        S.over_paths(body, f"{meth}({kind or 'unary'})", m.where, out)
     # constructors / constants
     for meth, wantc in (("one", 1), ("zero", 0)):
         m = it0.find_method(S.cls, meth)
-        it = S.interp()
-        r = it.call_func(m, [S.cls], {})
-        val, red, okcls = S.read(r)
-        out.append((meth, S.same(val, Poly.const(wantc, S.p)) and red and okcls, f"{val!r}", m.where))
-    it = S.interp()
-    a, av = S.element(it, "a")
-    out.append(("constructor(int) reduces", S.read(a)[1] and S.same(S.read(a)[0], av), "", S.cls.module.relpath))
-    cp = it.instantiate(S.cls, [a], {})
-    out.append(("constructor(FQ) copies a canonical value", S.read(cp)[1] and S.same(S.read(cp)[0], av), "", S.cls.module.relpath))
+
+        def body(it, m=m, wantc=wantc):
+            val, red, okcls = S.read(it.call_func(m, [S.cls], {}))
+            return S.same_on(it, val, Poly.const(wantc, S.p)) and red and okcls, f"{val!r}"
+        S.over_paths(body, meth, m.where, out)
+
+    def body(it):
+        a, av = S.element(it, "a")
+        return S.read(a)[1] and S.same_on(it, S.read(a)[0], av), ""
+    S.over_paths(body, "constructor(int) reduces", S.cls.module.relpath, out)
+
+    def body(it):
+        a, av = S.element(it, "a")
+        cp = it.instantiate(S.cls, [a], {})
+        return S.read(cp)[1] and S.same_on(it, S.read(cp)[0], av), ""
+    S.over_paths(body, "constructor(FQ) copies a canonical value", S.cls.module.relpath, out)
     m = it0.find_method(S.cls, "__int__")
-    r = it.call_func(m, [a], {})
-    out.append(("__int__", isinstance(r, FieldSym) and r.reduced and S.same(S._res(r)[0], av), "", m.where))
+
+    def body(it, m=m):
+        a, av = S.element(it, "a")
+        r = it.call_func(m, [a], {})
+        return isinstance(r, FieldSym) and r.reduced and S.same_on(it, S._res(r)[0], av), ""
+    S.over_paths(body, "__int__", m.where, out)
     # equality on elements: equivalent to residue equality (both stored values reduced)
     m = it0.find_method(S.cls, "__eq__")
 
@@ -327,16 +380,13 @@ def run_fq(S: FieldSubject):
     # small powers
     m = it0.find_method(S.cls, "__pow__")
     for n in (0, 1, 2, 3, 5, 8):
-        it = S.interp()
-        a, av = S.element(it, "a")
-        try:
-            r = it.call_func(m, [a, n], {})
-            val, red, okcls = S.read(r)
-            ok = S.same(val, av ** n) and red and okcls
-            out.append((f"__pow__({n})", ok, "" if ok else f"≡ {val!r}", m.where))
-        except Raised as ex:
-            out.append((f"__pow__({n})", False, f"raises {ex.exc.clsname()}", m.where))
-    return out
+        def body(it, n=n):
+            a, av = S.element(it, "a")
+            val, red, okcls = S.read(it.call_func(m, [a, n], {}))
+            ok = S.same_on(it, val, av ** n) and red and okcls
+            return ok, "" if ok else f"≡ {val!r}"
+        S.over_paths(body, f"__pow__({n})", m.where, out)
+    return S.settle(out)
 
 
 def run_fqp(S: FieldSubject):
@@ -349,32 +399,69 @@ def run_fqp(S: FieldSubject):
         if m is None:
             out.append((meth, False, "method missing", S.cls.module.relpath))
             return
-        it = S.interp()
-        a, av = S.element(it, "a")
-        if kind == "elem":
-            b, bv = S.element(it, "b")
-        elif kind == "int":
-            b, bv = S.var("k"), Poly.var("k", p)
-        elif kind == "fq":
-            fqc = a.attrs["coeffs"][0].cls if isinstance(a.attrs["coeffs"][0], Instance) else None
-            if fqc is None:
-                return
-            b = it.instantiate(fqc, [S.var("k")], {})
-            bv = Poly.var("k", p)
-        else:
-            b, bv = None, None
-        try:
+        if kind == "fq" and S.opt:
+            return
+
+        def body(it):
+            a, av = S.element(it, "a")
+            if kind == "elem":
+                b, bv = S.element(it, "b")
+            elif kind == "int":
+                b, bv = S.var("k"), Poly.var("k", p)
+            elif kind == "fq":
+                fqc = a.attrs["coeffs"][0].cls if isinstance(a.attrs["coeffs"][0], Instance) else None
+                if fqc is None:
+                    raise AnalysisError(f"{S.cls.qualname}: coefficients are not field objects")
+                b = it.instantiate(fqc, [S.var("k")], {})
+                bv = Poly.var("k", p)
+            else:
+                b, bv = None, None
             r = it.call_func(m, [a] + ([b] if kind else []), {})
             val, red, okcls = S.read(r)
-        except Raised as ex:
-            out.append((label or f"{meth}({kind})", False, f"raises {ex.exc.clsname()} at {ex.exc.where}", m.where))
-            return
-        want = spec(av, bv)
-        ok = S.same(val, want) and red and okcls
-        out.append((label or f"{meth}({kind or 'unary'})", ok,
-                    "" if ok else f"result {val!r}"[:300] + f"; reduced: {red}; class preserved: {okcls}", m.where))
+            want = spec(av, bv)
+            ok = S.same_on(it, val, want) and red and okcls
+            return ok, "" if ok else f"result {val!r}"[:300] + f"; reduced: {red}; class preserved: {okcls}"
+        S.over_paths(body, label or f"{meth}({kind or 'unary'})", m.where, out)
     do("__add__", "elem", lambda a, b: tower_add(a, b))
     do("__sub__", "elem", lambda a, b: tower_add(a, b, -1))
+
+    # a scalar operand of + and -: refused (TypeError / no such method), or it acts as the embedded constant (k, 0, …, 0)
+    def embed(k):
+        return TowerSym([k] + [Poly.const(0, p)] * (S.d - 1), S.mc, p)
+
+    def do_scalar(meth, kind, spec):
+        m = it0.find_method(S.cls, meth)
+        label = f"{meth}({kind}) refused or the embedded constant"
+        if m is None:
+            return
+        if kind == "fq" and S.opt:
+            return
+
+        def body(it):
+            a, av = S.element(it, "a")
+            if kind == "int":
+                b, bv = S.var("k"), Poly.var("k", p)
+            else:
+                fqc = a.attrs["coeffs"][0].cls if isinstance(a.attrs["coeffs"][0], Instance) else None
+                if fqc is None:
+                    raise AnalysisError(f"{S.cls.qualname}: coefficients are not field objects")
+                b, bv = it.instantiate(fqc, [S.var("k")], {}), Poly.var("k", p)
+            r = it.call_func(m, [a, b], {})
+            if r is NotImplemented or (isinstance(r, External) and r.qual.endswith("NotImplemented")):
+                return True, "returns NotImplemented"
+            try:
+                val, red, okcls = S.read(r)
+            except AnalysisError as e:
+                return False, f"result not a field element: {e}"[:200]
+            ok = S.same_on(it, val, spec(av, embed(bv))) and red and okcls
+            return ok, "" if ok else f"result {val!r}"[:300]
+        S.over_paths(body, label, m.where, out,
+                     refusal=lambda cn: cn.rsplit(".", 1)[-1] in ("TypeError", "AttributeError", "NotImplementedError"))
+    for kind in ("int", "fq"):
+        do_scalar("__add__", kind, lambda a, b: tower_add(a, b))
+        do_scalar("__radd__", kind, lambda a, b: tower_add(a, b))
+        do_scalar("__sub__", kind, lambda a, b: tower_add(a, b, -1))
+        do_scalar("__rsub__", kind, lambda a, b: tower_add(b, a, -1))
     do("__neg__", None, lambda a, b: tower_scalar(a, Poly.const(-1, p)))
     do("__mul__", "elem", lambda a, b: a.mul(b))
     do("__mul__", "int", lambda a, k: tower_scalar(a, k))
@@ -387,25 +474,25 @@ def run_fqp(S: FieldSubject):
         do("__div__", "fq", lambda a, k: tower_scalar(a, inv0_atom(k, p)))
     for meth, wantc in (("one", 1), ("zero", 0)):
         m = it0.find_method(S.cls, meth)
-        it = S.interp()
-        r = it.call_func(m, [S.cls], {})
-        val, red, okcls = S.read(r)
-        want = TowerSym([wantc] + [0] * (S.d - 1), S.mc, p)
-        out.append((meth, S.same(val, want) and red and okcls, "", m.where))
-    it = S.interp()
-    a, av = S.element(it, "a")
-    out.append(("constructor reduces every coefficient", S.read(a)[1] and S.same(S.read(a)[0], av), "", S.cls.module.relpath))
+
+        def body(it, m=m, wantc=wantc):
+            val, red, okcls = S.read(it.call_func(m, [S.cls], {}))
+            want = TowerSym([wantc] + [0] * (S.d - 1), S.mc, p)
+            return S.same_on(it, val, want) and red and okcls, ""
+        S.over_paths(body, meth, m.where, out)
+
+    def body(it):
+        a, av = S.element(it, "a")
+        return S.read(a)[1] and S.same_on(it, S.read(a)[0], av), ""
+    S.over_paths(body, "constructor reduces every coefficient", S.cls.module.relpath, out)
     m = it0.find_method(S.cls, "__pow__")
     for n in ((0, 1, 2, 3, 5) if S.d <= 2 else (0, 1, 2, 3)):
-        it = S.interp()
-        a, av = S.element(it, "a")
-        try:
-            r = it.call_func(m, [a, n], {})
-            val, red, okcls = S.read(r)
-            ok = S.same(val, tower_pow(av, n)) and red and okcls
-            out.append((f"__pow__({n})", ok, "" if ok else f"{val!r}"[:200], m.where))
-        except Raised as ex:
-            out.append((f"__pow__({n})", False, f"raises {ex.exc.clsname()}", m.where))
+        def body(it, n=n):
+            a, av = S.element(it, "a")
+            val, red, okcls = S.read(it.call_func(m, [a, n], {}))
+            ok = S.same_on(it, val, tower_pow(av, n)) and red and okcls
+            return ok, "" if ok else f"{val!r}"[:200]
+        S.over_paths(body, f"__pow__({n})", m.where, out)
     # a loop-free inv override (closed form) is decidable: a · a.inv() must be 1 in the quotient ring
     import ast as _ast
     m = it0.find_method(S.cls, "inv")
@@ -435,7 +522,7 @@ def run_fqp(S: FieldSubject):
             out.append(("inv() closed form: a·a.inv() = 1", False, f"raises {ex.exc.clsname()}", m.where))
     out.extend(check_inv_paths(S))
     out.extend(fqp_eq_obligations(S))
-    return out
+    return S.settle(out)
 
 
 def fqp_eq_obligations(S: FieldSubject):
